@@ -3,6 +3,9 @@ PROPS = {
     "C01": [J("^TestC01Ledger$", 700, 6000, shards=8), J("^TestC01Concurrent$", 60, 400, shards=6, race=True)],
     "C02": [J("^TestC02PoolHistories$", 600, 5000, shards=6), J("^TestC02Manager$", 4000, 60000, shards=6), J("^TestC02Slicing$", 300, 2500, shards=4)],
     "C03": [J("^TestC03MinBalance$", 900, 8000, shards=8)],
+    "C04": [J("^TestC04SignedEndpoints$", 4000, 40000, shards=8)],
+    "C05": [J("^TestC05NonceStore$", 1500, 10000, shards=8), J("^TestC05Replay$", 600, 5000, shards=6)],
+    "C06": [J("^TestC06RefusedChangesNothing$", 1500, 12000, shards=8)],
     "C12": [J("^TestC12Lockstep$", 2500, 12000, shards=8), J("^TestC12LockstepOnDisk$", 1, 1200, shards=6, tier="thorough")],
     "C19": [J("^TestC19", 3000, 40000, shards=8)],
 }
